@@ -31,7 +31,7 @@ REAL = ['py4hw.rtl_generation.VerilogGenerator and module-level caches', 'py4hw.
 STUB = ['stimulus']
 ASSUMPTIONS = ['"identical text up to the order of declarations and the instance-unique module suffixes": canonicalisation sorts wire '
                'declaration lines per module and renames hex suffixes by first appearance']
-PROBES = ['second_instance_compared', 'extended_between_generations', 'repeat_after_sim', 'repeat_after_other_circuit', 'repeat_after_crash', 'child_via_two_ancestors', 'fresh_vs_same_generator', 'sim_after_generation']
+PROBES = ['system_text_elaborated', 'system_as_top', 'second_clock_domain', 'second_instance_compared', 'extended_between_generations', 'repeat_after_sim', 'repeat_after_other_circuit', 'repeat_after_crash', 'child_via_two_ancestors', 'fresh_vs_same_generator', 'sim_after_generation']
 
 INLINED = {'And2', 'Or2', 'Xor2', 'Nand2', 'Nor2', 'Not', 'Buf', 'Bit', 'Range', 'BitsLSBF', 'BitsMSBF', 'ConcatenateMSBF',
            'ConcatenateLSBF', 'Repeat', 'Constant', 'Mux2', 'Equal', 'EqualConstant', 'And', 'Or', 'Nor', 'Sub', 'Mul', 'SignedMul',
@@ -81,6 +81,11 @@ def gen(rs, tier, index):
                                    seq_kinds=seqk, seq_frac=rng.choice([0.2, 0.4]), maxw=33)
             flat_mode = False
         apply_exclusions(d, kf, rng)
+        # a second clock domain: a top-level group with sequential content gets its own driver whose clock wire is a 1-bit input
+        tops = sorted({n['grp'][0] for n in d['nodes'] if n['grp']})
+        bits = [i['name'] for i in d['inputs'] if i['w'] == 1]
+        if tops and bits and rng.random() < 0.3:
+            d['group_driver'] = {rng.choice(tops): {'name': 'clk25', 'en': None, 'wire': rng.choice(bits)}}
         if rng.random() < (0.8 if flat_mode else 0.4) and len(d['order']) > 1:
             d['late'] = rng.randint(1, len(d['order']) - 1)      # built up to here first; op 'extend' adds the rest later
         circuits.append(d)
@@ -91,7 +96,8 @@ def gen(rs, tier, index):
         c = hr.randrange(ncirc)
         r = hr.random()
         if r < 0.35:
-            ops.append({'op': 'gen_hier', 'c': c, 'fresh': hr.random() < 0.5, 'created': hr.random() < 0.2})
+            ops.append({'op': 'gen_hier', 'c': c, 'fresh': hr.random() < 0.5, 'created': hr.random() < 0.2,
+                        'top': 'hw' if hr.random() < 0.2 else 'dut'})
         elif r < 0.6:
             ops.append({'op': 'gen_child', 'c': c, 'pick': hr.randrange(1 << 20), 'via': hr.choice(['top', 'parent', 'self']), 'fresh': hr.random() < 0.5})
         elif r < 0.9:
@@ -108,6 +114,8 @@ def run(scn, log, st):
     from .c03 import other_circuit
     circ = []
     for d in scn['circuits']:
+        if d.get('group_driver'):
+            st.probe('second_clock_domain')
         first = d['order'][:d['late']] if d.get('late') is not None else None
         b = netlist.Built(d).build(first)
         t = netlist.Built(d).build(first)
@@ -180,7 +188,12 @@ def run(scn, log, st):
         key = ('pending', si)
         try:
             with quiet():
-                if kind == 'gen_hier':
+                if kind == 'gen_hier' and op.get('top') == 'hw':
+                    # the whole system as the top entity
+                    key = ('hier-hw', op['c'])
+                    text = py4hw.VerilogGenerator(b.hw).getVerilogForHierarchy()
+                    st.probe('system_as_top')
+                elif kind == 'gen_hier':
                     key = ('hier', op['c'])
                     text = g.getVerilogForHierarchy(createdStructures=[]) if op.get('created') else g.getVerilogForHierarchy()
                 else:
@@ -196,7 +209,7 @@ def run(scn, log, st):
         except Exception as e:
             # a refusal is a result like any other: the same request must be refused every time
             if kind == 'gen_hier':
-                key = ('hier', op['c'])
+                key = ('hier-hw' if op.get('top') == 'hw' else 'hier', op['c'])
             text = 'REFUSED:%s' % type(e).__name__
         c['generated'] = True
         can = canonical(text)
@@ -247,6 +260,24 @@ def run(scn, log, st):
             raise Violation('not-repeatable', 'regen-differs:second-instance', len(scn['ops']) + 1,
                             'circuit %d: text for the circuit and for a second instance of the same description differ at line %d: %r vs %r' % (
                                 ci, j, a[j] if j < len(a) else None, b2[j] if j < len(b2) else None))
+    # generation with the whole system as top entity, for every circuit in turn (interleaved in one process): whenever the
+    # text of the circuit's Dut elaborates, the text of its system must be a closed, elaborating design as well
+    if len(circ) > 1:
+        from .. import vsim
+        for ci, c in enumerate(circ):
+            try:
+                with quiet():
+                    t_dut = py4hw.VerilogGenerator(c['b'].dut).getVerilogForHierarchy()
+                    t_hw = py4hw.VerilogGenerator(c['b'].hw).getVerilogForHierarchy()
+                vsim.elaborate(vsim.parse(t_dut), 'Dut')
+            except Exception:
+                continue
+            st.probe('system_text_elaborated')
+            try:
+                vsim.elaborate(vsim.parse(t_hw), vsim.parse(t_hw)[0].name)
+            except (vsim.VParseError, vsim.VElabError) as e:
+                raise Violation('not-repeatable', 'interleaved:system-text-broken', len(scn['ops']) + 1,
+                                'circuit %d of %d: the text generated for its HWSystem does not elaborate (%s) although the text of its Dut does' % (ci, len(circ), e))
     # final: every circuit still simulates like its never-generated twin
     for ci, c in enumerate(circ):
         with quiet():
